@@ -603,8 +603,12 @@ def run_history(case):
         sm.liouvillian()
         pt.get_bond_dimensions()
         for k in range(len(pt)):
-            pt.get_mpo_tensor(k)
-            pt.get_mpo_tensor(k, transformed=False)
+            if k % 2:
+                pt.get_mpo_tensor(k)
+                pt.get_mpo_tensor(k, transformed=False)
+            else:
+                pt.get_mpo_tensor(k, transformed=False)
+                pt.get_mpo_tensor(k)
         for k in range(len(pt) + 1):
             pt.get_cap_tensor(k)
         for st in range(0, 4):
